@@ -105,12 +105,12 @@ pub fn make_relative_path(base: &str, target: &str) -> String {
     let prefix = find_common_prefix_of_sorted_vec(&items)
         .map(|x| x.len())
         .unwrap_or(0);
-    let mut rel_list: Vec<_> = repeat("../").take(base_path.len() - prefix).collect();
+    let mut rel_list: Vec<_> = repeat("..").take(base_path.len() - prefix).collect();
     rel_list.extend_from_slice(&target_path[prefix..]);
     if rel_list.is_empty() {
         ".".into()
     } else {
-        rel_list.join("")
+        rel_list.join("/")
     }
 }
 
